@@ -3,6 +3,7 @@ package engine
 import (
 	"fmt"
 	"go/token"
+	"go/types"
 	"reflect"
 	"strings"
 
@@ -130,4 +131,317 @@ func runC03Iface(c *Ctx, wl *walkLayers) {
 		}
 	}
 	_ = p
+}
+
+// runC03Seen: the bookkeeping behind "missing entry" in the keyed walkers (map, URL).
+//   fresh    the set of keys seen in the input is created in the very pass that fills it
+//            (a set kept on the validator survives from one element of a slice of maps to the
+//            next, hiding keys that are absent from later elements)
+//   fill     every iteration over the input's entries records its key in that set, with the key
+//            that is also used to look the rules up
+//   report   the function that ranges over the rule map is called with the rule map the walker
+//            validates against and that set, after the input loop, on the pass's normal return
+//   skip     inside it an entry is skipped iff its key was seen (or is the unnamed key), a rule is
+//            skipped iff it is not `required`, and every remaining one writes exactly one clause
+func runC03Seen(c *Ctx) {
+	p := c.P
+	c.Rule("C03-SEEN", "keyed walkers: fresh per-pass key set, filled on every iteration with the lookup key, handed with the walker's rule map to the missing-key reporter after the input loop; the reporter skips exactly the seen keys and the non-required rules", 3)
+	// the reporter: the function in package valid that ranges over a parameter of type RM
+	var reporter *ssa.Function
+	var rmParam, seenParam *ssa.Parameter
+	for _, fn := range p.Funcs {
+		if fn.Pkg == nil || fn.Pkg != p.Pkg("valid") || fn.Signature.Recv() != nil {
+			continue
+		}
+		for _, b := range fn.Blocks {
+			for _, ins := range b.Instrs {
+				if r, ok := ins.(*ssa.Range); ok {
+					if prm, ok := r.X.(*ssa.Parameter); ok && isNamed(prm.Type(), ModPath+"/valid", "RM") {
+						reporter, rmParam = fn, prm
+					}
+				}
+			}
+		}
+	}
+	if reporter == nil {
+		c.Unk("C03-SEEN", "-", "reporter", token.NoPos, "no function ranges over a rule-map parameter (missing-key reporter not found)")
+		return
+	}
+	for _, prm := range reporter.Params {
+		if _, ok := prm.Type().Underlying().(*types.Map); ok && prm != rmParam {
+			seenParam = prm
+		}
+	}
+	c.Funcs[fnName(reporter)] = true
+	// ---- skip conditions inside the reporter
+	{
+		var bad []string
+		if seenParam == nil {
+			bad = append(bad, "the reporter takes no set of seen keys")
+		} else {
+			okSeen := false
+			for _, r := range refs(seenParam) {
+				lk, ok := r.(*ssa.Lookup)
+				if !ok || !lk.CommaOk {
+					continue
+				}
+				// key of the lookup is the range key
+				if ex, ok := lk.Index.(*ssa.Extract); !ok || ex.Index != 1 {
+					bad = append(bad, "seen-set consulted with something other than the rule map's current key")
+					continue
+				}
+				for _, rr := range refs(lk) {
+					ex, ok := rr.(*ssa.Extract)
+					if !ok || ex.Index != 1 {
+						continue
+					}
+					// the `ok` must lead (possibly through || with key=="") to skipping: find the If using it
+					for _, r3 := range refs(ex) {
+						if iff, ok := r3.(*ssa.If); ok {
+							// true edge must not reach a clause write without passing the loop header
+							if reachesWriteBeforeHeader(iff.Block().Succs[0], reporter) {
+								bad = append(bad, "an entry whose key WAS seen in the input is still reported as missing")
+							} else {
+								okSeen = true
+							}
+							if !reachesWriteBeforeHeader(iff.Block().Succs[1], reporter) {
+								bad = append(bad, "an entry whose key was not seen in the input is skipped")
+							}
+						}
+					}
+				}
+			}
+			if !okSeen && len(bad) == 0 {
+				bad = append(bad, "the reporter does not decide on membership in the seen set")
+			}
+		}
+		// rule filter: comparison with the constant "required"
+		okReq := false
+		for _, b := range reporter.Blocks {
+			for _, ins := range b.Instrs {
+				bo, ok := ins.(*ssa.BinOp)
+				if !ok || (bo.Op != token.EQL && bo.Op != token.NEQ) {
+					continue
+				}
+				s, isS := constString(bo.Y)
+				if !isS || s != "required" {
+					continue
+				}
+				ex, isEx := bo.X.(*ssa.Extract)
+				if !isEx || ex.Index != 0 {
+					bad = append(bad, "the rule filter does not compare the parsed rule key")
+					continue
+				}
+				if call, ok := ex.Tuple.(*ssa.Call); !ok || calleeName(&call.Call) != "valid.ParseValidNameKV" {
+					bad = append(bad, "the rule filter does not compare the key part of ParseValidNameKV")
+					continue
+				}
+				iff, isIf := bo.Block().Instrs[len(bo.Block().Instrs)-1].(*ssa.If)
+				if !isIf || iff.Cond != bo {
+					continue
+				}
+				reqEdge, otherEdge := bo.Block().Succs[0], bo.Block().Succs[1]
+				if bo.Op == token.NEQ {
+					reqEdge, otherEdge = otherEdge, reqEdge
+				}
+				if !reachesWriteBeforeHeader(reqEdge, reporter) {
+					bad = append(bad, "a missing key under `required` produces no clause")
+				}
+				if reachesWriteBeforeHeader(otherEdge, reporter) {
+					bad = append(bad, "a missing key produces a clause for a rule other than `required`")
+				}
+				okReq = true
+			}
+		}
+		if !okReq {
+			bad = append(bad, "the reporter does not select the `required` rule")
+		}
+		c.Sites++
+		c.Check(len(bad) == 0, "C03-SEEN", fnName(reporter), "skip", reporter.Pos(), "skips seen keys and non-required rules only", uniqJoin(bad, 3))
+	}
+	// ---- the keyed walkers
+	nWalk := 0
+	for _, w := range findWalkers(p) {
+		fn := w.Fn
+		var calls []*ssa.Call
+		for _, b := range fn.Blocks {
+			for _, ins := range b.Instrs {
+				if call, ok := ins.(*ssa.Call); ok && staticCallee(&call.Call) == reporter {
+					calls = append(calls, call)
+				}
+			}
+		}
+		recv := recvNamed(fn)
+		if len(calls) == 0 {
+			continue // C03-MISSING reports a keyed walker that never reaches the reporter
+		}
+		nWalk++
+		name := fnName(fn)
+		_ = recv
+		idx := func(prm *ssa.Parameter) int {
+			for i, q := range reporter.Params {
+				if q == prm {
+					return i
+				}
+			}
+			return -1
+		}
+		for ci, call := range calls {
+			c.Sites++
+			disc := func(s string) string {
+				if ci == 0 {
+					return s
+				}
+				return fmt.Sprintf("%s#%d", s, ci+1)
+			}
+			seenArg := call.Call.Args[idx(seenParam)]
+			rmArg := call.Call.Args[idx(rmParam)]
+			// fresh
+			mk, isMake := seenArg.(*ssa.MakeMap)
+			if !isMake {
+				c.Bad("C03-SEEN", name, disc("fresh"), call.Pos(), "the set of seen keys is not created in the pass that fills it (it outlives one input element): keys seen in an earlier element of a slice of maps hide keys missing from later ones")
+				continue
+			}
+			c.OK("C03-SEEN", name, disc("fresh"), mk.Pos(), "seen set is a fresh map of this pass")
+			// fill: MapUpdate on mk in a loop, executed on every iteration, key = key used for RM.Get
+			var bad []string
+			var upd *ssa.MapUpdate
+			for _, r := range refs(mk) {
+				if mu, ok := r.(*ssa.MapUpdate); ok && mu.Map == mk {
+					upd = mu
+				}
+			}
+			var loop *loopInfo
+			if upd != nil {
+				for _, l := range naturalLoops(fn) {
+					if l.Body[upd.Block()] && (loop == nil || len(l.Body) > len(loop.Body)) {
+						loop = l // outermost loop containing the update: the loop over the input's entries
+					}
+				}
+			}
+			switch {
+			case upd == nil:
+				bad = append(bad, "no key is ever recorded in the seen set")
+			case loop == nil:
+				bad = append(bad, "keys are recorded outside the loop over the input's entries")
+			default:
+				for b := range loop.Body {
+					for _, s := range b.Succs {
+						if s == loop.Header && b != loop.Header && !upd.Block().Dominates(b) {
+							bad = append(bad, "an iteration over the input can complete without recording its key (a present key may be reported as missing)")
+						}
+					}
+				}
+				// same key as the rule lookup
+				var getKey ssa.Value
+				for b := range loop.Body {
+					for _, ins := range b.Instrs {
+						if g, ok := ins.(*ssa.Call); ok && calleeName(&g.Call) == "(valid.RM).Get" {
+							getKey = g.Call.Args[1]
+						}
+					}
+				}
+				if getKey == nil {
+					bad = append(bad, "no rule lookup by the entry's key inside the input loop")
+				} else if getKey != upd.Key {
+					bad = append(bad, "the key recorded as seen is not the key the rules are looked up by")
+				}
+				// report after the loop
+				if loop.Body[call.Block()] {
+					bad = append(bad, "missing keys are reported inside the input loop (before all entries were seen)")
+				}
+			}
+			c.Check(len(bad) == 0, "C03-SEEN", name, disc("fill"), call.Pos(), "every iteration records the lookup key", uniqJoin(bad, 3))
+			// report: same rule map as the lookups; on the normal return path
+			var bad2 []string
+			isRuleObj := func(v ssa.Value) string {
+				if ld, ok := v.(*ssa.UnOp); ok {
+					if fa, ok := ld.X.(*ssa.FieldAddr); ok {
+						return fieldAddrName(fa)
+					}
+				}
+				return "?"
+			}
+			var getRM string
+			for _, b := range fn.Blocks {
+				for _, ins := range b.Instrs {
+					if g, ok := ins.(*ssa.Call); ok && calleeName(&g.Call) == "(valid.RM).Get" {
+						getRM = isRuleObj(g.Call.Args[0])
+					}
+				}
+			}
+			if r := isRuleObj(rmArg); r == "?" || r != getRM {
+				bad2 = append(bad2, "the rule map handed to the reporter is not the one the entries are validated against")
+			}
+			// every return reachable from the loop exit passes the call
+			if loop != nil {
+				for _, ee := range loop.exitEdges() {
+					if !call.Block().Dominates(ee[1]) && ee[1] != call.Block() && !blockAlwaysReaches(ee[1], call.Block()) {
+						bad2 = append(bad2, "after the input loop the pass can return without reporting missing keys")
+					}
+				}
+			}
+			c.Check(len(bad2) == 0, "C03-SEEN", name, disc("report"), call.Pos(), "reporter called with the walker's rule map after the loop", uniqJoin(bad2, 3))
+		}
+	}
+	if nWalk < 2 {
+		c.Unk("C03-SEEN", "-", "walkers", token.NoPos, fmt.Sprintf("expected 2 keyed walkers calling the missing-key reporter, found %d", nWalk))
+	}
+}
+
+// reachesWriteBeforeHeader: from block b, can a WriteString on a builder be reached without
+// first passing the header of a loop that contains b (i.e. within the current iteration of
+// every enclosing loop)? b being such a header itself means the iteration is over.
+func reachesWriteBeforeHeader(b *ssa.BasicBlock, fn *ssa.Function) bool {
+	stop := map[*ssa.BasicBlock]bool{}
+	for _, l := range naturalLoops(fn) {
+		if l.Body[b] {
+			stop[l.Header] = true
+		}
+	}
+	seen := map[*ssa.BasicBlock]bool{}
+	var walk func(x *ssa.BasicBlock) bool
+	walk = func(x *ssa.BasicBlock) bool {
+		if seen[x] || stop[x] {
+			return false
+		}
+		seen[x] = true
+		for _, ins := range x.Instrs {
+			if call, ok := ins.(*ssa.Call); ok && calleeName(&call.Call) == "(*strings.Builder).WriteString" {
+				return true
+			}
+		}
+		for _, s := range x.Succs {
+			if walk(s) {
+				return true
+			}
+		}
+		return false
+	}
+	return walk(b)
+}
+
+// blockAlwaysReaches: every path from a reaches b (b post-dominates a), computed by search.
+func blockAlwaysReaches(a, b *ssa.BasicBlock) bool {
+	seen := map[*ssa.BasicBlock]bool{}
+	var walk func(x *ssa.BasicBlock) bool
+	walk = func(x *ssa.BasicBlock) bool {
+		if x == b {
+			return true
+		}
+		if seen[x] {
+			return true
+		}
+		seen[x] = true
+		if len(x.Succs) == 0 {
+			return false
+		}
+		for _, s := range x.Succs {
+			if !walk(s) {
+				return false
+			}
+		}
+		return true
+	}
+	return walk(a)
 }
